@@ -114,6 +114,17 @@ def run(ctx):
                           dict(inp, function="sparse"), {"what": "formula", "f": "sparse"})
                     if p >= 2:
                         ia, ib = M.intermediate_mvcapa_penalty(n, p, npv, scale)
+                        # the per-j curve translated from the source (closure penalty_func), with SciPy's chi-square quantile / density as oracle inputs
+                        from scipy.stats import chi2 as _chi2
+                        icurve = ir("intermediate_mvcapa_penalty.penalty_func")
+                        want_i = []
+                        for j in range(1, p):
+                            cj = float(_chi2.ppf(1 - j / p, npv))
+                            want_i.append(py2coq.pyeval(icurve, {"n": n, "p": p, "npv": npv, "scale": scale, "j": j, "c_j": cj, "f_j": float(_chi2.pdf(cj, npv))}))
+                        want_i.append(want_i[-1])
+                        if not (ia == 0.0 and close(ia + np.cumsum(ib), np.asarray(want_i), rel=1e-10)):
+                            v(f"intermediate_mvcapa_penalty{(n, p, npv, scale)}: cumulative penalties {(ia + np.cumsum(ib)).tolist()[:4]}... differ from the translated per-j curve "
+                              f"{want_i[:4]}... (alpha must be 0, the last increment 0)", dict(inp, function="intermediate"), {"what": "formula", "f": "intermediate"})
                         ca, cb = M.combined_mvcapa_penalty(n, p, npv, scale)
                         dcum, scum, icum = da + np.cumsum(db), sa + np.cumsum(sb), ia + np.cumsum(ib)
                         want_c = np.minimum(dcum, np.minimum(scum, icum))
